@@ -87,6 +87,8 @@ QUICK_DAG = {
     "renamed": {"funcs": [_F("f0", ["x"], ["o0"], ren={"x": "x_orig", "o0": "o0_orig"}), _F("f1", ["y", "o0"], ["o1"], ren={"o0": "o0_orig"})],
                 "deco": "rename"},
     "shared-root": {"funcs": [_F("f0", ["x"], ["o0"]), _F("f1", ["x", "o0"], ["o1", "p1"]), _F("f2", ["p1", "y"], ["o2"])]},
+    # two functions with NO function-to-function path that share a root (whose default only one of them declares): ONE component
+    "connected-only-through-a-root": {"funcs": [_F("f0", ["x", "y"], ["o0"], sigdef={"y": "dy"}), _F("f1", ["y"], ["o1"])], "deco": "sigdef"},
 }
 
 
@@ -1033,6 +1035,22 @@ def run_history(base, hist, state_oracle=True, info=None):  # noqa: C901, PLR091
         names = [n for part in parts for g in structure(part) for n in g]
         if sorted(names) != sorted(m0.alive()):
             res.append(({"kind": "split-not-a-partition", "op": kind}, f"{where}: components hold {sorted(names)}, pipeline has {sorted(m0.alive())}"))
+        # "disconnected" = no name in common: two components may not share a parameter (a shared root carries ONE value and possibly
+        # a default that only one of its users declares) or an output
+        part_names = []
+        for part in parts:
+            ns = set()
+            for g in structure(part):
+                for n in g:
+                    fn = m0.func(n)
+                    ns |= set(m0.unbound(fn)) | set(fn["outs"])
+            part_names.append(ns)
+        for a_, b_ in itertools.combinations(range(len(parts)), 2):
+            common = part_names[a_] & part_names[b_]
+            if common:
+                res.append(({"kind": "split-separates-connected", "op": kind},
+                            f"{where}: two components share the name(s) {sorted(common)}: {[sorted(sorted(g) for g in structure(q_)) for q_ in parts]}"))
+                break
     if state_oracle:
         r, n = check_state(q, m, kind)
         res += [(s, f"{where}: {t}") for s, t in r]
@@ -1047,9 +1065,22 @@ def run_history(base, hist, state_oracle=True, info=None):  # noqa: C901, PLR091
         elif behaviour(p, m0) != b0:
             res.append(({"kind": "original-changed", "what": "results", "op": kind}, f"{where} changed the results of the original"))
         bq = behaviour(q, m)
+        cq = canon(q)
         traces += 2
         # a later mutation of the result must not reach the original …
         info["mutations"] = mutate(q)
+        # … nor what the SAME rewrite of the (unchanged) original returns the next time
+        try:
+            q_again = _quiet(apply_impl, p, op, m0)
+        except Exception as e:  # noqa: BLE001
+            res.append((findings.exc_sig(e, phase="apply-again", op=kind), f"{where}: applying the same rewrite a second time raised {type(e).__name__}: {str(e)[:100]}"))
+        else:
+            if q_again is q:
+                res.append(({"kind": "same-object-twice", "op": kind}, f"{where}: applied twice, the rewrite returned the SAME object (mutated in between)"))
+            elif canon(q_again) != cq:
+                res.append(({"kind": "aliasing", "dir": "result->next-result", "what": "canon", "op": kind},
+                            f"{where}; the result was mutated, and the same rewrite applied again now gives {canon(q_again)[:200]} (was {cq[:200]})"))
+            traces += 1
         if canon(p) != c0:
             res.append(({"kind": "aliasing", "dir": "result->original", "what": "canon", "op": kind},
                         f"{where}; then mutating the RESULT changed the original: {canon(p)} was {c0}"))
